@@ -18,7 +18,7 @@ id=$(echo $ID | tr 'A-Z' 'a-z')
 WT=/tmp/vwt-$ID; H=/tmp/vh-$ID; TGT=/tmp/vtgt-$ID
 if [ ! -d $WT ]; then git -C /repo worktree add -q --detach $WT HEAD || exit 2; fi
 git -C $WT checkout -q -- . && git -C $WT clean -fdq
-if [ "$PATCH" != "none" ]; then git -C $WT apply "$PATCH" || { echo "patch does not apply"; exit 2; }; fi
+if [ "$PATCH" != "none" ]; then git -C $WT apply "$(realpath "$PATCH")" || { echo "patch does not apply"; exit 2; }; fi
 mkdir -p $H && rsync -a --delete --exclude target /verif/harness/ $H/
 sed -i "s#/repo/#$WT/#g" $H/vprop/Cargo.toml $H/netsim/Cargo.toml
 sed -i "s#^target-dir.*#target-dir = \"$TGT\"#" $H/.cargo/config.toml
